@@ -6,6 +6,7 @@ import (
 	"bytes"
 	"context"
 	"fmt"
+	"google.golang.org/protobuf/encoding/protowire"
 	"strings"
 	"testing"
 
@@ -236,7 +237,7 @@ func c11run(r *kernel.Run) {
 				continue
 			}
 			sk, proof, _ := o.p.st.ExportAccountKeysForBackup()
-			bad := r.Pick("malformed", 6)
+			bad := r.Pick("malformed", 8)
 			var a1, a2 []byte
 			switch bad {
 			case 5: // well-formed keys, but the store is partially used: it only ever derived a member key (proof key exists)
@@ -247,6 +248,26 @@ func c11run(r *kernel.Run) {
 				a1, a2 = sk, proof
 			case 0: // the two keys equal
 				a1, a2 = sk, sk
+			case 6: // the two keys equal, the second serialised with an unknown protobuf field appended
+				a1, a2 = sk, append(append([]byte(nil), sk...), 0x78, 0x01)
+			case 7: // the two keys equal, the second in the 96-byte form of Ed25519 private keys (private ‖ public ‖ public)
+				k, err := crypto.UnmarshalPrivateKey(sk)
+				if err != nil {
+					r.Infra("unmarshal: %v", err)
+					return
+				}
+				raw, _ := k.Raw()
+				data := append(append([]byte(nil), raw...), raw[32:]...)
+				b := protowire.AppendTag(nil, 1, protowire.VarintType)
+				b = protowire.AppendVarint(b, 1) // KeyType Ed25519
+				b = protowire.AppendTag(b, 2, protowire.BytesType)
+				b = protowire.AppendBytes(b, data)
+				if k2, err := crypto.UnmarshalPrivateKey(b); err != nil || !k2.Equals(k) {
+					r.Probe("legacy_key_form_not_accepted_by_libp2p")
+					a1, a2 = sk, sk
+				} else {
+					a1, a2 = sk, b
+				}
 			case 1: // non-Ed25519 key
 				k, _, _ := crypto.GenerateSecp256k1Key(nil)
 				kb, _ := crypto.MarshalPrivateKey(k)
